@@ -821,7 +821,13 @@ func cmdFuzzDec64(args []string) {
 		}
 		valid, _ := src.ToBytes()
 		kind := pick(r, kinds64)
+		if r.Intn(5) == 0 {
+			kind = "none"
+		}
 		data, prefix, ok := corrupt64(valid, kind, r)
+		if kind == "none" {
+			ok = false
+		}
 		if !ok {
 			data, kind, prefix = valid, "none", false
 		}
@@ -867,7 +873,8 @@ func cmdFuzzDec64(args []string) {
 				msg = msg[:160]
 			}
 			ev := e.rawEvent(Call{Op: "Decode", V: entry, Rcp: kind})
-			ev.Ret = map[string]any{"outcome": outcome, "msg": msg, "valid": false, "prefix": prefix && false, "entry": []string{"ReadFrom", "FromUnsafeBytes", "UnmarshalBinary", "FromBase64"}[entry]}
+			ev.Ret = map[string]any{"outcome": outcome, "msg": msg, "valid": false, "prefix": prefix && false, "entry": []string{"ReadFrom", "FromUnsafeBytes", "UnmarshalBinary", "FromBase64"}[entry],
+				"mustok": kind == "none"} // an undamaged stream written by the library itself must be accepted
 			e.emit(ev)
 			e.events++
 			cv.Ops["Decode"]++
